@@ -410,10 +410,17 @@ package kafka
 
 //@ property C11 C06 C10
 
+// The in-flight counter is what lets waitResponse tell a misaligned stream (a foreign correlation id while it is the only
+// waiter: io.ErrNoProgress, connection closed) from a response meant for a concurrent call. It stays exact only if every
+// operation that entered leaves exactly once, on every path.
 //@ func (*Conn).enter
-//@   trusted atomic in-flight counter
+//@   trusted atomic in-flight counter (ghost $enters counts the calls)
+//@   modifies c.$enters
+//@   ensures c.$enters == old(c.$enters) + 1
 //@ func (*Conn).leave
-//@   trusted atomic in-flight counter
+//@   trusted atomic in-flight counter (ghost $leaves counts the calls)
+//@   modifies c.$leaves
+//@   ensures c.$leaves == old(c.$leaves) + 1
 //@ func (*Conn).concurrency
 //@   trusted atomic in-flight counter
 //@ func (*connDeadline).setConnReadDeadline
@@ -440,10 +447,13 @@ package kafka
 //@   ensures err == nil ==> c.$frameEnd == (&c.rbuf).$rpos + size
 //@   ensures err == nil ==> rid == id && lock != nil
 //@   ensures err != nil ==> c.conn.$cclosed
+//@   ensures c.$leaves == old(c.$leaves) + 1 && c.$enters == old(c.$enters)
+//@   loop 0 invariant c.$leaves == old(c.$leaves) && c.$enters == old(c.$enters)
 //@ func (*Conn).doRequest
 //@   option noframe
 //@   modifies heap
 //@   ensures err != nil ==> c.conn.$cclosed
+//@   ensures c.$enters == old(c.$enters) + 1 && c.$leaves == old(c.$leaves) + ite(err != nil, 1, 0)
 
 // C11: a broker-reported error (a kafka.Error somewhere in the chain) leaves the connection open; any other error of the
 // read step closes it, so a Conn is never reused after a framing or transport error.
@@ -452,6 +462,7 @@ package kafka
 //@   modifies heap
 //@   callsite iface Conn.Close requires !spec.iskafka(err)
 //@   ensures result != nil && !spec.iskafka(result) ==> c.conn.$cclosed
+//@   ensures c.$enters - c.$leaves == old(c.$enters - c.$leaves)
 
 // ---- guarded-by declarations (C10): every access to these fields needs the named lock in the path's lockset ----
 //@ lock (*Conn).wlock as c
